@@ -32,7 +32,7 @@ TEXT = {
  "C09": ("Theorems: a new run is Initiated, version 1, at a declared status; world invariant for all histories: every run followed by a later run of its foreign ID is finished (at most one unfinished). For every state Trigger returns an error with no Store (bad start, unfinished latest run, failed lookup) or performs exactly one Store of the fresh record. Composition with C17 (memrecordstore refines the reference store, Latest = newest created). " + ENGINE_Q,
          TRUST, "Coq proof (world invariant by induction over operations) + differential correspondence + monitor"),
  "C10": ("Theorems over the shard filter: for every integer event ID and every shard count n >= 2 exactly one shard handles the event; the original truncated remainder refuted (F7, repaired). Correspondence: real shardFilter on all residues and both signs; the launch family compares the roles the real Run requests with the model's enumeration on the whole configuration grid (per-unit/default counts 0..8 x hooks x timeouts x connectors x paused-retry, two display-string variants).",
-         "Launch: theorems that the model's launch list is exactly the configured units, each once, with max(1,n) consumers forming shards 1..n of n; the list is tied to the real Run by the launch family. PARTIAL: distinctness of the role-name strings is an exhaustive comparison on the grid, not a theorem. int64 modelled as Z. " + TRUST,
+         "Connector consumers run inside the engine harness; for all histories a shard never passes a connector event it owns without the connector function having returned nil on it (theorem), other shards acknowledge it unhandled (theorem), and the monitor checks every connector event is handled by exactly its own shard. Launch: theorems that the model's launch list is exactly the configured units, each once, with max(1,n) consumers forming shards 1..n of n; the list is tied to the real Run by the launch family. PARTIAL: distinctness of the role-name strings is an exhaustive comparison on the grid, not a theorem. int64 modelled as Z. " + TRUST,
          "Coq proof (shard partition for all Z) + exhaustive / differential correspondence"),
  "C11": ("Theorems: for EVERY state a store/stream/timeout call made after lease loss or crash has no effect; a failed operation takes the error exit and the process survives; memrolescheduler transition system: at most one live holder per role for every interleaving of await/grant/cancel/unlock. Monitor on the real engine: every call under the current lease, Await after errors, open/close balance, no call after Stop.",
          "PARTIAL: freedom from data races is a statement about Go's memory model; it is not modelled and nothing is claimed for it. " + TRUST,
